@@ -38,7 +38,10 @@ def handle : List Sexp → Option Sexp
   | [atom "map_stack", spec, order, limit, dna] => do
       let g := analyse (← parseSpec spec)
       let order ← (← order.asList?).mapM parseTy
-      pure (resSx valSxNoCtx (Stack.mapStack g order (← limit.asNat?) 200000 (← dna.asInts?)))
+      let genes ← dna.asInts?
+      let lim ← limit.asNat?
+      -- the operation budget of the repaired loop: failures_limit * len(dna)
+      pure (resSx valSxNoCtx (Stack.mapStack g order lim (lim * genes.length) genes))
   | [atom "map_ge", spec, dec, dna] => do
       let g := analyse (← parseSpec spec)
       pure (resSx valSx (mapGE g (← parseDecider dec) bigFuel (← dna.asInts?) true))
